@@ -74,6 +74,20 @@ def run(ctx):
         # ---- MassFunction level
         nmf = 0
         base = dict(transfer_model="EH", lnk_min=-12.0, lnk_max=10.0, dlnk=0.1)
+        # the identity rho_ltm = mean_density0 - rho_gtm holds as stated also where an un-normalised fit on a deep grid integrates to more
+        # than the mean density (rho_ltm is then negative, not clipped)
+        for fit_, kw_ in (("Watson_FoF", dict(Mmin=1.0, Mmax=16.0, dlog10m=0.1, sigma_8=1.5)), ("AnguloBound", dict(Mmin=1.0, Mmax=16.0, dlog10m=0.1, sigma_8=1.5)),
+                          ("Warren", dict(Mmin=2.0, Mmax=16.0, dlog10m=0.1, sigma_8=1.3))):
+            try:
+                deep = MassFunction(hmf_model=fit_, z=0.0, **dict(base, lnk_min=-14.0, lnk_max=16.0), **kw_)
+                rg_, rl_ = deep.rho_gtm, deep.rho_ltm
+            except Exception:
+                continue
+            nmf += 1
+            if not np.allclose(rl_, deep.mean_density0 - rg_, rtol=1e-12, atol=1e-12 * deep.mean_density0):
+                i_ = int(np.argmax(np.abs(rl_ - (deep.mean_density0 - rg_))))
+                viol("massfunction/rho_ltm-identity/overshoot", f"{fit_} (sigma_8={kw_['sigma_8']}, Mmin={kw_['Mmin']}): rho_ltm = {rl_[i_]:.6g} but mean_density0 - rho_gtm = {deep.mean_density0 - rg_[i_]:.6g} at m=10^{np.log10(deep.m[i_]):.1f} (rho_gtm/mean_density0 = {rg_[i_] / deep.mean_density0:.4f})",
+                     {"hmf_model": fit_, **kw_})
         for fit in (["Tinker08", "SMT", "Warren"] if quick else ["Tinker08", "SMT", "Warren", "PS", "Jenkins", "Watson", "Tinker10", "Bhattacharya"]):
             for z in (0.0, 2.0):
                 ref = MassFunction(hmf_model=fit, z=z, Mmin=10.0, Mmax=15.0, dlog10m=0.1, **base)
